@@ -101,6 +101,57 @@ fn lark_case(out: &mut Out, env: &TokEnv, level: &str, lo: usize, hi: Option<usi
     out.count(&format!("lark_{level}"), 1);
 }
 
+/// two repetitions of the same named rule in one grammar (the builder memoises repetition nodes
+/// per element: the second one must not pick up a node built for the first)
+fn lark_pair_case(out: &mut Out, env: &TokEnv, r1: (usize, Option<usize>), r2: (usize, Option<usize>), swap: bool) {
+    let q = |(lo, hi): (usize, Option<usize>)| match hi {
+        Some(h) if h == lo => format!("{{{lo}}}"),
+        Some(h) => format!("{{{lo},{h}}}"),
+        None => format!("{{{lo},}}"),
+    };
+    let lark = format!("start: x{} \";\" x{}\nx: \"a\"\n", q(r1), q(r2));
+    let bound = 9usize.max(r1.1.unwrap_or(r1.0) + 2).max(r2.1.unwrap_or(r2.0) + 2).min(20);
+    let m = match matcher_for(env, TopLevelGrammar::from_lark(lark.clone())) {
+        Ok(m) => m,
+        Err(_) => {
+            out.count("rejected_grammars", 1);
+            return;
+        }
+    };
+    let mut acc: Vec<usize> = vec![];
+    for c1 in 0..=bound {
+        for c2 in 0..=bound {
+            let mut c = m.deep_clone();
+            let mut ok = true;
+            for b in std::iter::repeat(b'a').take(c1).chain(std::iter::once(b';')).chain(std::iter::repeat(b'a').take(c2)) {
+                if c.is_stopped() || c.consume_token(b as u32).is_err() {
+                    ok = false;
+                    break;
+                }
+            }
+            let a = ok && c.is_accepting().unwrap_or(false);
+            let want = c1 >= r1.0 && r1.1.map_or(true, |h| c1 <= h) && c2 >= r2.0 && r2.1.map_or(true, |h| c2 <= h);
+            if a != want {
+                out.violation(
+                    &format!("two repetitions of one rule: {c1} then {c2} copies accepted = {a}, expected {want}"),
+                    lark.clone(),
+                );
+            }
+            if a {
+                acc.push(c1 * 100 + c2);
+            }
+        }
+    }
+    let h = |o: Option<usize>| o.map(|h| h as i64).unwrap_or(-1);
+    out.case(
+        tagged("repeat2", vec![int(r1.0), int(h(r1.1)), int(bound), int(r2.0), int(h(r2.1))]),
+        tagged("ok", vec![ints(&acc)]),
+        true,
+    );
+    let _ = swap;
+    out.count("lark_rule_pairs", 1);
+}
+
 fn json_case(out: &mut Out, env: &TokEnv, kind: &str, lo: usize, hi: Option<usize>) {
     let mut schema = match kind {
         "items" => serde_json::json!({"type": "array", "items": {"const": 1}}),
@@ -194,6 +245,31 @@ pub fn run(_rng: &mut Rng, out: &mut Out, tier: &str) {
         for lo in 0..=(top / 2) {
             lark_case(out, &env, level, lo, None);
         }
+    }
+    // pairs of repetitions of the same rule: small ranges exhaustively (both orders), plus wide ones
+    // (the factorised encoding of wide ranges builds inner at_most / repeat_exact nodes)
+    let small: Vec<(usize, Option<usize>)> = {
+        let mut v = vec![];
+        let t = if tier == "thorough" { 5 } else { 3 };
+        for lo in 0..=t {
+            for hi in lo..=t {
+                v.push((lo, Some(hi)));
+            }
+            v.push((lo, None));
+        }
+        v
+    };
+    for r1 in &small {
+        for r2 in &small {
+            if r1.1 == Some(0) || r2.1 == Some(0) {
+                continue;
+            }
+            lark_pair_case(out, &env, *r1, *r2, false);
+        }
+    }
+    for (r1, r2) in [((1, Some(14)), (3, Some(6))), ((2, Some(5)), (3, None)), ((0, Some(13)), (1, Some(1))), ((0, Some(16)), (0, Some(3))), ((3, Some(17)), (2, Some(2))), ((4, Some(4)), (0, Some(16)))] {
+        lark_pair_case(out, &env, r1, r2, false);
+        lark_pair_case(out, &env, r2, r1, true);
     }
     let jt = if tier == "thorough" { 40 } else { 14 };
     for kind in ["items", "length_ascii", "length_2byte", "length_3byte", "length_4byte", "length_escape", "props"] {
